@@ -7,7 +7,7 @@ import numpy as np
 from vlib import core, dom, rescorr
 
 ID = "C17"
-PROPS = ["C17_shift.v", "C17_prelude.v", "C01_matrix.v", "C04_step_system.v", "C17_user_law.v", "C04_time_loop.v"]
+PROPS = ["C17_shift.v", "C17_prelude.v", "C01_matrix.v", "C04_step_system.v", "C17_user_law.v", "C04_time_loop.v", "C04_end_to_end.v", "C17_source_loop.v"]
 GEN = ["reservoir"]
 
 
